@@ -83,7 +83,12 @@ func (vc *VC) emitVariant(o *Obl, dir string, idx int, variant int) (string, int
 		return o.Mark > 0 && at > o.Mark && (o.Hi == 0 || at <= o.Hi) && os.Getenv("GOVC_NOSLICE") == ""
 	}
 	if os.Getenv("GOVC_DEBUGMARK") != "" {
-		fmt.Fprintf(os.Stderr, "MARK %s mark=%d hi=%d\n", o.Name, o.Mark, o.Hi)
+		fmt.Fprintf(os.Stderr, "MARK %s mark=%d hi=%d cut=(%d,%d]\n", o.Name, o.Mark, o.Hi, o.CutLo, o.CutHi)
+		for i, a := range vc.asserts {
+			if strings.Contains(a, "(strid s) (strid t)") {
+				fmt.Fprintf(os.Stderr, "   strid_inj at=%d\n", vc.assertAt[i])
+			}
+		}
 
 	}
 	inCut := func(at int) bool {
@@ -164,6 +169,13 @@ func (vc *VC) emitVariant(o *Obl, dir string, idx int, variant int) (string, int
 						changed = true
 					}
 				}
+			}
+		}
+	}
+	if os.Getenv("GOVC_DEBUGMARK") != "" {
+		for i, a := range vc.asserts {
+			if strings.Contains(a, "(strid s) (strid t)") {
+				fmt.Fprintf(os.Stderr, "   strid_inj incl=%v need[strid]=%v need[slen]=%v declared[strid]=%v syms=%d\n", inclFact[i], need["strid"], need["slen"], declared["strid"], len(factSyms[i]))
 			}
 		}
 	}
@@ -455,7 +467,7 @@ func (vc *VC) emitVariant(o *Obl, dir string, idx int, variant int) (string, int
 	b.WriteString("(check-sat)\n")
 	// symbols proved equal to an earlier symbol (cells and heap arrays a loop leaves alone) are replaced by it throughout:
 	// the solver then needs no equational reasoning over array-sorted constants to see through unchanged state
-	text := vc.substAliases(b.String())
+	text := vc.skipFreshStoresText(vc.substAliases(b.String()))
 	path := filepath.Join(dir, fmt.Sprintf("%03d_%s.smt2", idx, sanitize(o.Name)))
 	if variant == 1 {
 		path = filepath.Join(dir, fmt.Sprintf("%03d_%s.v1.smt2", idx, sanitize(o.Name)))
@@ -481,6 +493,21 @@ func stripQuantConjuncts(t string) string {
 		return And(keep...)
 	}
 	return T
+}
+
+var selEntryRe = regexp.MustCompile(`\(select ([A-Za-z0-9_]+![0-9]+) ((?:fv|p)_[A-Za-z0-9_]+![0-9]+)\)`)
+
+// skipFreshStoresText applies skipFreshStores to the finished text (reads that only became reads of a defined heap
+// version through alias substitution)
+func (vc *VC) skipFreshStoresText(text string) string {
+	return selEntryRe.ReplaceAllStringFunc(text, func(m string) string {
+		sm := selEntryRe.FindStringSubmatch(m)
+		h := vc.skipFreshStores(sm[1], sm[2])
+		if h == sm[1] {
+			return m
+		}
+		return "(select " + h + " " + sm[2] + ")"
+	})
 }
 
 func builtinSym(s string) bool {
